@@ -12,48 +12,65 @@
 (*   Cycle(i)         one coordination cycle for shard i: compare hashes, push the    *)
 (*                    raw content if they differ, re-read, decide "in sync"           *)
 (*   PushLost(i)      as Cycle, but the push is rejected / lost                       *)
+(*   PushRefused(i)   as Cycle, but the shard answers the push with an error because a   *)
+(*                    reload callback failed (Prometheus did not take the generated file)  *)
 (***************************************************************************)
 EXTENDS Integers, FiniteSets
 
 CONSTANTS Classes, HashView, Shards, MaxVersion
 
 VARIABLES coord,     \* [set: class -> version, cosmetic: version]
-          shardCfg,  \* shard -> same
+          shardCfg,  \* shard -> same: the configuration the sidecar holds (and hashes)
+          file,      \* shard -> same: the configuration the generated file of the shard was last written from
+          runs,      \* shard -> same: the configuration the shard's Prometheus was last reloaded with
           verdict    \* shard -> "insync" | "outofsync": what the last cycle since the coordinator's last
                      \* reload made of the shard ("none": no cycle yet since then)
 
-vars == <<coord, shardCfg, verdict>>
+vars == <<coord, shardCfg, file, runs, verdict>>
 
 Hash(cfg) == [c \in HashView |-> cfg.set[c]]          \* cosmetic changes are never hashed
 Same(a, b) == a.set = b.set                              \* the same configuration, up to cosmetics
 
 Init == /\ coord = [set |-> [c \in Classes |-> 0], cosmetic |-> 0]
         /\ shardCfg = [i \in Shards |-> coord]
+        /\ runs = [i \in Shards |-> coord] /\ file = [i \in Shards |-> coord]
         /\ verdict = [i \in Shards |-> "none"]
 
 CoordReload(c) == /\ coord.set[c] < MaxVersion
                   /\ coord' = [coord EXCEPT !.set[c] = @ + 1]
                   /\ verdict' = [i \in Shards |-> "none"]
-                  /\ UNCHANGED shardCfg
+                  /\ UNCHANGED <<shardCfg, file, runs>>
 CoordCosmetic == /\ coord.cosmetic < MaxVersion
                  /\ coord' = [coord EXCEPT !.cosmetic = @ + 1]
-                 /\ UNCHANGED <<shardCfg, verdict>>
+                 /\ UNCHANGED <<shardCfg, file, runs, verdict>>
 Cycle(i) ==
   /\ IF Hash(shardCfg[i]) # Hash(coord)
-       THEN shardCfg' = [shardCfg EXCEPT ![i] = coord]      \* push accepted, re-read hash matches
-       ELSE UNCHANGED shardCfg
+       THEN /\ shardCfg' = [shardCfg EXCEPT ![i] = coord]      \* push accepted, re-read hash matches
+            /\ file' = [file EXCEPT ![i] = coord] /\ runs' = [runs EXCEPT ![i] = coord]
+       ELSE UNCHANGED <<shardCfg, file, runs>>
   /\ verdict' = [verdict EXCEPT ![i] = "insync"]
   /\ UNCHANGED coord
 PushLost(i) ==
   /\ Hash(shardCfg[i]) # Hash(coord)
   /\ verdict' = [verdict EXCEPT ![i] = "outofsync"]
-  /\ UNCHANGED <<coord, shardCfg>>
+  /\ UNCHANGED <<coord, shardCfg, file, runs>>
+\* RefusedKeepsOld (the repaired tree): a configuration whose callbacks failed is not the one the sidecar holds and
+\* hashes.  FALSE (the pinned tree): the sidecar has taken it over before running the callbacks, and reports its hash.
+RefusedKeepsOld == TRUE
+PushRefused(i) ==
+  /\ Hash(shardCfg[i]) # Hash(coord)
+  /\ shardCfg' = IF RefusedKeepsOld THEN shardCfg ELSE [shardCfg EXCEPT ![i] = coord]
+  /\ file' = [file EXCEPT ![i] = coord]          \* (the failing callback is the last one, the reload: the file has been written)
+  /\ verdict' = [verdict EXCEPT ![i] = "outofsync"]
+  /\ UNCHANGED <<coord, runs>>
+\* any later reload that succeeds (a targets update) makes Prometheus run what the generated file says
+LaterReload(i) == runs' = [runs EXCEPT ![i] = file[i]] /\ UNCHANGED <<coord, shardCfg, file, verdict>>
 
-Next == (\E c \in Classes : CoordReload(c)) \/ CoordCosmetic \/ \E i \in Shards : Cycle(i) \/ PushLost(i)
+Next == (\E c \in Classes : CoordReload(c)) \/ CoordCosmetic \/ \E i \in Shards : Cycle(i) \/ PushLost(i) \/ PushRefused(i) \/ LaterReload(i)
 Spec == Init /\ [][Next]_vars
 
 (* C16: a shard that a cycle treated as in sync runs the coordinator's configuration *)
-InSyncIsTruthful == \A i \in Shards : verdict[i] = "insync" => Same(shardCfg[i], coord)
+InSyncIsTruthful == \A i \in Shards : verdict[i] = "insync" => Same(shardCfg[i], coord) /\ Same(runs[i], coord)
 \* and a shard that runs it is never treated as out of sync
-NoFalseOutOfSync == \A i \in Shards : verdict[i] = "outofsync" => ~Same(shardCfg[i], coord)
+NoFalseOutOfSync == \A i \in Shards : verdict[i] = "outofsync" => ~(Same(shardCfg[i], coord) /\ Same(runs[i], coord))
 =============================================================================
